@@ -80,6 +80,15 @@ def main(argv=None):
     t0 = time.time()
     from . import env, run, symx
     env.load()
+    numba_cache = None
+    if prop == "C08":
+        # quick tier: one JIT cache directory shared by all witness replays of this run (outside /repo and /verif,
+        # removed at the end); thorough tier and the order harness use a fresh cache per replay
+        import tempfile, atexit, shutil
+        if a.tier == "quick":
+            numba_cache = tempfile.mkdtemp(prefix="vf_numba_shared_")
+            os.environ["VF_NUMBA_SHARED_CACHE"] = numba_cache
+            atexit.register(lambda: shutil.rmtree(numba_cache, ignore_errors=True))
     mod = importlib.import_module("vf.harness." + prop.lower())
     hs = [h for h in mod.harnesses(a.tier) if a.only in h.name]
     if len({h.name for h in hs}) != len(hs):
@@ -131,16 +140,29 @@ def main(argv=None):
                 hstat["proved"] += 1
             if "witness_conforms" in x:
                 tot["witnesses"] += 1
+                observed_only = getattr(h, "observed_only", False)
+                if x.get("witness_real_holds") is False and not x.get("witness_in_region") and v != "violation":
+                    # the real build violates the property on this path's witness: a reproduced violation by
+                    # construction (for observed-only harnesses this is the only way a violation can show)
+                    tot["sat_reproduced"] += 1
+                    hstat["violations"] += 1
+                    import re as _re
+                    k = (h.name.rsplit(".n", 1)[0], _re.sub(r"\d+", "#", (x.get("witness_real_failing") or ["?"])[0])[:100])
+                    if k not in violations:
+                        violations[k] = dict(h=h, res=dict(x, cex=x["witness"], cex_real_failing=x.get("witness_real_failing"),
+                                                           cex_real_out=x.get("witness_real_out")))
                 if x["witness_conforms"]:
                     tot["witnesses_conform"] += 1
                 elif x["witness_conforms"] is None:
                     tot["witnesses_unvalidated"] = tot.get("witnesses_unvalidated", 0) + 1
+                elif observed_only:
+                    tot["witnesses_observed_only_mismatch"] = tot.get("witnesses_observed_only_mismatch", 0) + 1
                 else:
                     model_errors.append(f"{h.name}: model and real build disagree on witness {x['choices']}\n"
                                         f"    inputs: {json.dumps(x['witness'])[:600]}\n    real  : {json.dumps(x.get('witness_real'))[:600]}\n"
                                         f"    model : {json.dumps(x.get('witness_pred'))[:600]}")
                 if x.get("witness_real_holds") is False and x["witness_conforms"] and v == "proved" and not x.get("witness_in_region"):
-                    model_errors.append(f"{h.name}: concrete spec fails on a witness of a proved path {x['choices']} {x.get('witness_real_failing')}")
+                    model_errors.append(f"{h.name}: concrete spec fails on a witness although model and real build agree and the path was proved {x['choices']} {x.get('witness_real_failing')}")
             if v == "violation":
                 tot["sat"] += 1
                 if x.get("cex_reproduced"):
